@@ -1,6 +1,7 @@
 package main
 
 import (
+	"encoding/json"
 	"fmt"
 
 	gbig "github.com/privacybydesign/gabi/big"
@@ -210,6 +211,31 @@ func suiteC09(s *Suite, rng *Rng, tier string) {
 					u = shared[[2]int{a, b}]
 				} else {
 					u = h.window(a, b)
+				}
+				if !useShared && a >= 1 && rng.Intn(3) == 0 {
+					// the client assembles the message itself: the newest part [c,b] as an update, the older events [a,d] as an event
+					// list read from the wire with its product, prepended (d >= c-1; d >= b: the list covers the whole update)
+					c := a + rng.Intn(b-a+1)
+					d := c - 1 + rng.Intn(b-c+2)
+					if d < a {
+						d = a
+					}
+					js, _ := json.Marshal(revocation.NewEventList(append([]*revocation.Event{}, h.events[a:d+1]...)...))
+					el := &revocation.EventList{ComputeProduct: true}
+					if err := json.Unmarshal(js, el); err != nil {
+						panic(err)
+					}
+					u = h.window(c, b)
+					if _, err := u.Verify(kp.Pk); err != nil {
+						panic(err)
+					}
+					if err := u.Prepend(el); err != nil {
+						s.Violate("C09:authentic-events-not-prepended", fmt.Sprintf("Prepend of the authentic events [%d,%d] to the update [%d,%d] failed: %v", a, d, c, b, err), L{a, d, c, b})
+						u = h.window(a, b)
+					} else {
+						u.SignedAccumulator.Accumulator = nil
+						s.Dist["update-assembled-by-prepend"]++
+					}
 				}
 				ourIdx := int(w.SignedAccumulator.Accumulator.Index)
 				beforeU := new(gbig.Int).Set(w.U)
